@@ -23,7 +23,9 @@ import (
 	"context"
 	"errors"
 	"fmt"
+	"os"
 	"strings"
+	"sync"
 	"testing"
 
 	"github.com/google/cel-go/cel"
@@ -54,8 +56,10 @@ type c01Authn struct {
 }
 
 type c01Cond struct {
-	T        string       `json:"t"`              // none true false err panic
-	Real     bool         `json:"real,omitempty"` // true/false: really compiled CEL instead of the stub program
+	T        string       `json:"t"`                   // none true false err panic
+	Real     bool         `json:"real,omitempty"`      // true/false: really compiled CEL instead of the stub program
+	RealKind string       `json:"real_kind,omitempty"` // hdr: reads a request header; method: reads the method; subject: reads Subject.ID
+	CID      int          `json:"cid,omitempty"`       // hdr: the header is X-Verif-C<cid>
 	E        *stacks.Node `json:"e,omitempty"`
 	PanicErr bool         `json:"panic_err,omitempty"`
 }
@@ -88,13 +92,19 @@ type c01Rule struct {
 }
 
 type c01Case struct {
-	R        stacks.Respond `json:"respond"`
-	Lookup   string         `json:"lookup"` // matched default norule
-	Rule     *c01Rule       `json:"rule,omitempty"`
-	Slash    bool           `json:"encoded_slash,omitempty"`  // the request path contains %2F
-	LoginURL *string        `json:"login_url_header"`         // X-Login-Url request header (nil = absent), rendered by `to` templates
-	Shadow   bool           `json:"shadow_default,omitempty"` // matched: an always-succeeding default rule is installed too
-	Upstream bool           `json:"-"`
+	R         stacks.Respond `json:"respond"`
+	Lookup    string         `json:"lookup"` // matched default norule
+	Rule      *c01Rule       `json:"rule,omitempty"`
+	Slash     bool           `json:"encoded_slash,omitempty"`  // the request path contains %2F
+	LoginURL  *string        `json:"login_url_header"`         // X-Login-Url request header (nil = absent), rendered by `to` templates
+	Shadow    bool           `json:"shadow_default,omitempty"` // matched: an always-succeeding default rule is installed too
+	Method    string         `json:"method,omitempty"`         // "" = GET
+	Path      string         `json:"path,omitempty"`           // "" = the rule's path /verif; else a sub path of it (matched) or any other path
+	Preflight bool           `json:"preflight,omitempty"`      // Origin + Access-Control-Request-Method headers (CORS is not configured)
+	Upstream  string         `json:"upstream,omitempty"`       // what the upstream does if the request gets there: "" = 200, s<code>, abort
+	Socket    bool           `json:"socket,omitempty"`         // decision and proxy are served over a real loopback connection
+	Group     int            `json:"group"`                    // cases of one group share rule instance, executor and stacks
+	Idx       int            `json:"idx"`                      // position in the group (X-Verif-Idx)
 }
 
 // ---- stubs ------------------------------------------------------------------------------------
@@ -107,85 +117,107 @@ func c01Panic(e *stacks.Node, asErr bool, built error) {
 	panic("verif: stub panics")
 }
 
-type c01Authenticator struct {
-	d   c01Authn
-	err error
+// All stubs are shared by the requests of a group: what they do for a request is selected by the
+// request's X-Verif-Idx header (the i-th request of the group gets the i-th outcome).
+func c01Idx(req *heimdall.Request, n int) int {
+	i := 0
+	fmt.Sscanf(req.Header("X-Verif-Idx"), "%d", &i) //nolint:errcheck
+
+	if i < 0 || i >= n {
+		panic(fmt.Sprintf("verif: bad X-Verif-Idx %q", req.Header("X-Verif-Idx")))
+	}
+
+	return i
 }
 
-func (a *c01Authenticator) Execute(heimdall.Context) (*subject.Subject, error) {
-	switch a.d.Out.T {
+type c01Authenticator struct {
+	ds   []c01Authn
+	errs []error
+}
+
+func (a *c01Authenticator) Execute(ctx heimdall.Context) (*subject.Subject, error) {
+	i := c01Idx(ctx.Request(), len(a.ds))
+
+	switch a.ds[i].Out.T {
 	case "ok":
 		return &subject.Subject{ID: "verif", Attributes: map[string]any{}}, nil
 	case "fail":
-		return nil, a.err
+		return nil, a.errs[i]
 	}
 
-	c01Panic(a.d.Out.E, a.d.Out.PanicErr, a.err)
+	c01Panic(a.ds[i].Out.E, a.ds[i].Out.PanicErr, a.errs[i])
 
 	return nil, nil
 }
 
-func (a *c01Authenticator) IsFallbackOnErrorAllowed() bool { return a.d.Fallback }
+func (a *c01Authenticator) IsFallbackOnErrorAllowed() bool { return a.ds[0].Fallback }
 
 type c01Handler struct {
-	d   c01Step
-	err error
+	ds   []c01Step
+	errs []error
 }
 
 func (h *c01Handler) ID() string { return "verif-step" }
 
-func (h *c01Handler) Execute(heimdall.Context, *subject.Subject) error {
-	switch h.d.Out.T {
+func (h *c01Handler) Execute(ctx heimdall.Context, _ *subject.Subject) error {
+	i := c01Idx(ctx.Request(), len(h.ds))
+
+	switch h.ds[i].Out.T {
 	case "ok":
 		return nil
 	case "fail":
-		return h.err
+		return h.errs[i]
 	}
 
-	c01Panic(h.d.Out.E, h.d.Out.PanicErr, h.err)
+	c01Panic(h.ds[i].Out.E, h.ds[i].Out.PanicErr, h.errs[i])
 
 	return nil
 }
 
-func (h *c01Handler) ContinueOnError() bool { return h.d.Continue }
+func (h *c01Handler) ContinueOnError() bool { return h.ds[0].Continue }
 
 type c01ErrHandler struct {
-	d   c01EH
-	err error
+	ds   []c01EH
+	errs []error
 }
 
 func (h *c01ErrHandler) ID() string { return "verif-eh" }
 
-func (h *c01ErrHandler) Execute(heimdall.Context, error) error {
-	switch h.d.K {
+func (h *c01ErrHandler) Execute(ctx heimdall.Context, _ error) error {
+	i := c01Idx(ctx.Request(), len(h.ds))
+
+	switch h.ds[i].K {
 	case "fails":
-		return h.err
+		return h.errs[i]
 	case "silent":
 		return nil
 	}
 
-	c01Panic(h.d.E, h.d.PanicErr, h.err)
+	c01Panic(h.ds[i].E, h.ds[i].PanicErr, h.errs[i])
 
 	return nil
 }
 
-// stub cel.Program: the program's result is data of the case
+// stub cel.Program: the program's result on a request is data of the case
 type c01Program struct {
-	d   c01Cond
-	err error
+	ds   []c01Cond
+	errs []error
 }
 
-func (p *c01Program) Eval(any) (ref.Val, *cel.EvalDetails, error) {
-	switch p.d.T {
+func (p *c01Program) Eval(obj any) (ref.Val, *cel.EvalDetails, error) {
+	req, _ := obj.(map[string]any)["Request"].(*heimdall.Request)
+	i := c01Idx(req, len(p.ds))
+
+	switch p.ds[i].T {
 	case "true":
 		return types.Bool(true), nil, nil
 	case "false":
 		return types.Bool(false), nil, nil
 	case "err":
-		return nil, nil, p.err
+		return nil, nil, p.errs[i]
 	}
 
-	c01Panic(p.d.E, p.d.PanicErr, p.err)
+	c01Panic(p.ds[i].E, p.ds[i].PanicErr, p.errs[i])
 
 	return nil, nil, nil
 }
@@ -202,17 +234,31 @@ func c01BuildErr(n *stacks.Node) error {
 	return stacks.Build(*n)
 }
 
-func c01Condition(d c01Cond) executionCondition {
+// c01RealExpr is the really compiled CEL expression of a "real" condition; its value on a request
+// follows from the request (a header the driver sets, the method) or from the subject.
+func c01RealExpr(d c01Cond) string {
+	switch d.RealKind {
+	case "hdr":
+		return fmt.Sprintf(`Request.Header("X-Verif-C%d") == "1"`, d.CID)
+	case "subject":
+		if d.T == "true" {
+			return `Subject.ID == "verif"`
+		}
+
+		return `Subject.ID != "verif"`
+	}
+
+	return `Request.Method == "GET"`
+}
+
+func c01Condition(ds []c01Cond) executionCondition {
+	d := ds[0]
+
 	switch {
 	case d.T == "none":
 		return defaultExecutionCondition{}
-	case d.Real && (d.T == "true" || d.T == "false"):
-		expr := `Request.Method == "GET"`
-		if d.T == "false" {
-			expr = `Request.Method == "POST"`
-		}
-
-		c, err := newCelExecutionCondition(expr)
+	case d.Real:
+		c, err := newCelExecutionCondition(c01RealExpr(d))
 		if err != nil {
 			panic(err)
 		}
@@ -220,10 +266,15 @@ func c01Condition(d c01Cond) executionCondition {
 		return c
 	}
 
-	return &celExecutionCondition{e: cellib.VerifCompiledExpression(&c01Program{d: d, err: c01BuildErr(d.E)}, "expression evaluated to false")}
+	errs := make([]error, len(ds))
+	for i := range ds {
+		errs[i] = c01BuildErr(ds[i].E)
+	}
+
+	return &celExecutionCondition{e: cellib.VerifCompiledExpression(&c01Program{ds: ds, errs: errs}, "expression evaluated to false")}
 }
 
-func c01Mechanism(d c01EH) errorHandler {
+func c01Mechanism(d c01EH) errorhandlers.ErrorHandler {
 	var (
 		eh  errorhandlers.ErrorHandler
 		err error
@@ -255,7 +306,7 @@ func c01Mechanism(d c01EH) errorHandler {
 
 		eh, err = errorhandlers.CreatePrototype(nil, "eh", errorhandlers.ErrorHandlerWWWAuthenticate, conf)
 	default:
-		return &c01ErrHandler{d: d, err: c01BuildErr(d.E)}
+		return nil
 	}
 
 	if err != nil {
@@ -265,30 +316,75 @@ func c01Mechanism(d c01EH) errorHandler {
 	return eh
 }
 
-func c01Steps(ds []c01Step) compositeSubjectHandler {
+func c01Steps(vs [][]c01Step) compositeSubjectHandler {
 	out := compositeSubjectHandler{}
-	for _, d := range ds {
-		out = append(out, &conditionalSubjectHandler{h: &c01Handler{d: d, err: c01BuildErr(d.Out.E)}, c: c01Condition(d.If)})
+
+	for j := range vs[0] {
+		ds := make([]c01Step, len(vs))
+		errs := make([]error, len(vs))
+		conds := make([]c01Cond, len(vs))
+
+		for i := range vs {
+			ds[i] = vs[i][j]
+			errs[i] = c01BuildErr(vs[i][j].Out.E)
+			conds[i] = vs[i][j].If
+		}
+
+		out = append(out, &conditionalSubjectHandler{h: &c01Handler{ds: ds, errs: errs}, c: c01Condition(conds)})
 	}
 
 	return out
 }
 
-func c01BuildRule(d *c01Rule, isDefault bool, upstreamHost string) *ruleImpl {
+// c01BuildRule builds ONE rule instance from the variants of a group (same structure, the i-th
+// variant describes what the steps do for the i-th request).
+func c01BuildRule(vs []*c01Rule, isDefault bool, upstreamHost string) *ruleImpl {
+	d := vs[0]
 	ri := &ruleImpl{id: "verif-rule", srcID: "verif", isDefault: isDefault}
+
 	if isDefault {
 		ri.id = "default"
 	}
 
-	for _, a := range d.SC {
-		ri.sc = append(ri.sc, &c01Authenticator{d: a, err: c01BuildErr(a.Out.E)})
+	for j := range d.SC {
+		ds := make([]c01Authn, len(vs))
+		errs := make([]error, len(vs))
+
+		for i := range vs {
+			ds[i] = vs[i].SC[j]
+			errs[i] = c01BuildErr(vs[i].SC[j].Out.E)
+		}
+
+		ri.sc = append(ri.sc, &c01Authenticator{ds: ds, errs: errs})
 	}
 
-	ri.sh = c01Steps(d.SH)
-	ri.fi = c01Steps(d.FI)
+	sh := make([][]c01Step, len(vs))
+	fi := make([][]c01Step, len(vs))
 
-	for _, h := range d.EH {
-		ri.eh = append(ri.eh, &conditionalErrorHandler{h: c01Mechanism(h), c: c01Condition(h.If)})
+	for i := range vs {
+		sh[i], fi[i] = vs[i].SH, vs[i].FI
+	}
+
+	ri.sh = c01Steps(sh)
+	ri.fi = c01Steps(fi)
+
+	for j, h := range d.EH {
+		ds := make([]c01EH, len(vs))
+		errs := make([]error, len(vs))
+		conds := make([]c01Cond, len(vs))
+
+		for i := range vs {
+			ds[i] = vs[i].EH[j]
+			errs[i] = c01BuildErr(vs[i].EH[j].E)
+			conds[i] = vs[i].EH[j].If
+		}
+
+		var handler errorHandler = c01Mechanism(h)
+		if h.K == "fails" || h.K == "panics" || h.K == "silent" {
+			handler = &c01ErrHandler{ds: ds, errs: errs}
+		}
+
+		ri.eh = append(ri.eh, &conditionalErrorHandler{h: handler, c: c01Condition(conds)})
 	}
 
 	if d.Backend {
@@ -315,27 +411,34 @@ func (f *c01Factory) CreateRule(string, string, config.Rule) (rule.Rule, error) 
 func (f *c01Factory) DefaultRule() rule.Rule { return f.def }
 func (f *c01Factory) HasDefaultRule() bool   { return f.def != nil }
 
-func c01Executor(c c01Case, upstreamHost string) rule.Executor {
+func c01Executor(g []c01Case, upstreamHost string) rule.Executor {
 	fac := &c01Factory{}
+	c := g[0]
+	trivial := []*c01Rule{{SC: []c01Authn{{Out: c01Outcome{T: "ok"}}}, Backend: true}}
+
+	var vs []*c01Rule
+	for i := range g {
+		vs = append(vs, g[i].Rule)
+	}
 
 	switch c.Lookup {
 	case "default":
-		fac.def = c01BuildRule(c.Rule, true, upstreamHost)
+		fac.def = c01BuildRule(vs, true, upstreamHost)
 	case "matched":
 		if c.Shadow {
-			fac.def = c01BuildRule(&c01Rule{SC: []c01Authn{{Out: c01Outcome{T: "ok"}}}, Backend: true}, true, upstreamHost)
+			fac.def = c01BuildRule(trivial, true, upstreamHost)
 		}
 	}
 
 	repo := newRepository(fac)
 
 	if c.Lookup == "matched" {
-		if err := repo.AddRuleSet("verif", []rule.Rule{c01BuildRule(c.Rule, false, upstreamHost)}); err != nil {
+		if err := repo.AddRuleSet("verif", []rule.Rule{c01BuildRule(vs, false, upstreamHost)}); err != nil {
 			panic(err)
 		}
 	} else {
 		// a rule that is there but does not match the request
-		other := c01BuildRule(&c01Rule{SC: []c01Authn{{Out: c01Outcome{T: "ok"}}}, Backend: true}, false, upstreamHost)
+		other := c01BuildRule(trivial, false, upstreamHost)
 		other.routes = []rule.Route{&routeImpl{rule: other, path: "/elsewhere", matcher: compositeMatcher{}}}
 
 		if err := repo.AddRuleSet("verif", []rule.Rule{other}); err != nil {
@@ -360,17 +463,124 @@ type c01Obs struct {
 }
 
 func c01Path(c c01Case) string {
-	if c.Slash {
-		return "/verif/a%2Fb"
+	if c.Lookup == "matched" {
+		// the rule's routes are /verif and /verif/:x
+		switch {
+		case c.Slash:
+			return "/verif/a%2Fb"
+		case c.Path != "":
+			return "/verif" + c.Path
+		}
+
+		return "/verif"
 	}
 
-	return "/verif"
+	base := "/nomatch"
+	if c.Path != "" {
+		base = c.Path
+	}
+
+	if c.Slash {
+		return strings.TrimSuffix(base, "/") + "/a%2Fb"
+	}
+
+	return base
 }
 
-func c01Run(c c01Case, up *stacks.Upstream) c01Obs {
-	exec := c01Executor(c, up.Host())
-	path := c01Path(c)
-	o := c01Obs{}
+// c01RealConds calls f for every really compiled header-reading condition of the rule.
+func c01RealConds(d *c01Rule, f func(c c01Cond)) {
+	if d == nil {
+		return
+	}
+
+	for _, s := range d.SH {
+		f(s.If)
+	}
+
+	for _, s := range d.FI {
+		f(s.If)
+	}
+
+	for _, h := range d.EH {
+		f(h.If)
+	}
+}
+
+func c01Request(c c01Case) stacks.Req {
+	r := stacks.Req{Method: c.Method, Path: c01Path(c), Headers: map[string]string{"X-Verif-Idx": fmt.Sprint(c.Idx)}}
+
+	if c.LoginURL != nil {
+		r.Headers["X-Login-Url"] = *c.LoginURL
+	}
+
+	if c.Upstream != "" {
+		r.Headers["X-Verif-Upstream"] = c.Upstream
+	}
+
+	if c.Preflight {
+		r.Headers["Origin"] = "https://app.example"
+		r.Headers["Access-Control-Request-Method"] = "POST"
+	}
+
+	if c.Method == "POST" || c.Method == "PUT" {
+		r.Body = `{"a":"b"}`
+		r.Headers["Content-Type"] = "application/json"
+	}
+
+	c01RealConds(c.Rule, func(d c01Cond) {
+		if d.Real && d.RealKind == "hdr" {
+			r.Headers[fmt.Sprintf("X-Verif-C%d", d.CID)] = map[bool]string{true: "1", false: "0"}[d.T == "true"]
+		}
+	})
+
+	return r
+}
+
+type c01Stacks struct {
+	dec, prx *stacks.HTTPStack
+	env      *stacks.EnvoyStack
+}
+
+func (st *c01Stacks) close() {
+	st.dec.Close()
+	st.prx.Close()
+	st.env.Close()
+}
+
+func (st *c01Stacks) do(entry string, socket bool, r stacks.Req) stacks.Result {
+	switch entry {
+	case "decision":
+		if socket {
+			return st.dec.DoSocket(r)
+		}
+
+		return st.dec.DoReq(r)
+	case "proxy":
+		if socket {
+			return st.prx.DoSocket(r)
+		}
+
+		return st.prx.DoReq(r)
+	}
+
+	return st.env.DoReq(r)
+}
+
+func c01Same(a, b stacks.Result) bool {
+	return a.Kind == b.Kind && a.Status == b.Status && a.GCode == b.GCode
+}
+
+// c01RunGroup sends the requests of a group, one after the other, through ONE rule instance, ONE
+// executor and ONE stack per entry point; with VERIF_C01_CONCURRENT set it then repeats all of them
+// concurrently (several rounds) and demands the very same answers and the same total of upstream hits.
+func c01RunGroup(g []c01Case, up *stacks.Upstream) []c01Obs {
+	exec := c01Executor(g, up.Host())
+	st := &c01Stacks{dec: stacks.NewDecision(g[0].R, exec), prx: stacks.NewProxy(g[0].R, exec), env: stacks.NewEnvoy(g[0].R, exec)}
+
+	defer st.close()
+
+	out := make([]c01Obs, len(g))
+	reqs := make([]stacks.Req, len(g))
 
 	measure := func(f func() stacks.Result) c01Entry {
 		before := up.Hits()
@@ -379,21 +589,75 @@ func c01Run(c c01Case, up *stacks.Upstream) c01Obs {
 		return c01Entry{Res: res, Hits: up.Hits() - before}
 	}
 
-	hdrs := map[string]string{}
-	if c.LoginURL != nil {
-		hdrs["X-Login-Url"] = *c.LoginURL
+	for i, c := range g {
+		reqs[i] = c01Request(c)
+		r := reqs[i]
+		out[i].Decision = measure(func() stacks.Result { return st.do("decision", c.Socket, r) })
+		out[i].Proxy = measure(func() stacks.Result { return st.do("proxy", c.Socket, r) })
+		out[i].Envoy = measure(func() stacks.Result { return st.do("envoy", false, r) })
 	}
 
-	o.Decision = measure(func() stacks.Result { return stacks.NewDecision(c.R, exec).DoHeaders(path, hdrs) })
-	o.Proxy = measure(func() stacks.Result { return stacks.NewProxy(c.R, exec).DoHeaders(path, hdrs) })
-	o.Envoy = measure(func() stacks.Result {
-		env := stacks.NewEnvoy(c.R, exec)
-		defer env.Close()
+	if os.Getenv("VERIF_C01_CONCURRENT") == "" {
+		return out
+	}
 
-		return env.DoHeaders(path, hdrs)
-	})
+	const rounds = 12
 
-	return o
+	start := make(chan struct{})
+
+	var (
+		wg   sync.WaitGroup
+		mu   sync.Mutex
+		diff = map[string]string{}
+	)
+
+	before := up.Hits()
+
+	var want int64
+
+	for i := range g {
+		want += rounds * (out[i].Decision.Hits + out[i].Proxy.Hits + out[i].Envoy.Hits)
+	}
+
+	for round := 0; round < rounds; round++ {
+		for i := range g {
+			for _, entry := range []string{"decision", "proxy", "envoy"} {
+				wg.Add(1)
+
+				go func(i int, entry string) {
+					defer wg.Done()
+
+					<-start
+
+					res := st.do(entry, g[i].Socket && entry != "envoy", reqs[i])
+					seq := map[string]stacks.Result{"decision": out[i].Decision.Res, "proxy": out[i].Proxy.Res, "envoy": out[i].Envoy.Res}[entry]
+
+					if !c01Same(res, seq) {
+						mu.Lock()
+						diff[fmt.Sprintf("%d/%s", i, entry)] = fmt.Sprintf("sequential %+v concurrent %+v", seq, res)
+						mu.Unlock()
+					}
+				}(i, entry)
+			}
+		}
+	}
+
+	close(start)
+	wg.Wait()
+
+	hitsDiffer := up.Hits()-before != want
+
+	for i := range g {
+		for entry, e := range map[string]*c01Entry{"decision": &out[i].Decision, "proxy": &out[i].Proxy, "envoy": &out[i].Envoy} {
+			if d, ok := diff[fmt.Sprintf("%d/%s", i, entry)]; ok {
+				e.Res = stacks.Result{Kind: "concurrent-answer-differs", Panic: d}
+			} else if hitsDiffer && entry == "proxy" {
+				e.Res = stacks.Result{Kind: "concurrent-upstream-hits-differ", Panic: fmt.Sprint(up.Hits()-before, " instead of ", want)}
+			}
+		}
+	}
+
+	return out
 }
 
 // ---- generator ------------------------------------------------------------------------------------
@@ -404,6 +668,8 @@ type c01Gen struct {
 	calm   bool // steps mostly succeed
 	opts   stacks.GenOpts
 	maxLen int
+	cid    int  // numbering of the header-reading real conditions
+	inEH   bool // generating an error handler
 }
 
 func (g *c01Gen) tree() *stacks.Node {
@@ -448,9 +714,9 @@ func (g *c01Gen) cond() c01Cond {
 	case x < 45:
 		return c01Cond{T: "none"}
 	case x < 63:
-		return c01Cond{T: "true", Real: g.r.Chance(40)}
+		return g.real(c01Cond{T: "true", Real: g.r.Chance(40)})
 	case x < 80:
-		return c01Cond{T: "false", Real: g.r.Chance(40)}
+		return g.real(c01Cond{T: "false", Real: g.r.Chance(40)})
 	case x < 96:
 		// a CEL program never returns (or wraps) heimdall's EvalError or sentinels of internal/rules:
 		// "evaluated to false" is generated as a value, the program error is any other error value
@@ -468,6 +734,26 @@ func (g *c01Gen) cond() c01Cond {
 	}
 }
 
+// real picks what a really compiled condition reads (error handler conditions have no Subject)
+func (g *c01Gen) real(c c01Cond) c01Cond {
+	if !c.Real {
+		return c
+	}
+
+	kinds := []string{"hdr", "hdr", "method", "subject"}
+	if g.inEH {
+		kinds = kinds[:3]
+	}
+
+	c.RealKind = vf.Pick(g.r, kinds)
+	if c.RealKind == "hdr" {
+		g.cid++
+		c.CID = g.cid
+	}
+
+	return c
+}
+
 func (g *c01Gen) steps(max int) []c01Step {
 	n := g.r.Intn(max + 1)
 	out := make([]c01Step, n)
@@ -480,7 +766,9 @@ func (g *c01Gen) steps(max int) []c01Step {
 }
 
 func (g *c01Gen) eh() c01EH {
+	g.inEH = true
 	h := c01EH{If: g.cond()}
+	g.inEH = false
 
 	switch x := g.r.Intn(100); {
 	case x < 24:
@@ -498,10 +786,10 @@ func (g *c01Gen) eh() c01EH {
 	case x < 62:
 		h.K = "www"
 		h.Realm = vf.Pick(g.r, []string{"", "myrealm", "two words"})
-	case x < 84:
+	case x < 88:
 		h.K = "fails"
 		h.E = g.tree()
-	case x < 93:
+	case x < 98:
 		h.K = "panics"
 		h.PanicErr = g.r.Bool()
 
@@ -529,8 +817,8 @@ func c01Code(r *vf.Rand, odd bool) int {
 }
 
 func c01GenCase(r *vf.Rand) c01Case {
-	g := &c01Gen{r: r, odd: r.Chance(15), calm: r.Chance(45)}
-	g.opts = stacks.GenOpts{Odd: g.odd, ArgBoost: 20}
+	g := &c01Gen{r: r, odd: r.Chance(10), calm: r.Chance(45)}
+	g.opts = stacks.GenOpts{Odd: g.odd, ArgBoost: 20, StdPct: 12}
 
 	c := c01Case{}
 	c.R = stacks.Respond{
@@ -542,9 +830,9 @@ func c01GenCase(r *vf.Rand) c01Case {
 	switch x := r.Intn(100); {
 	case x < 55:
 		c.R.Accepted = 0
-	case x < 90:
+	case x < 93:
 		c.R.Accepted = vf.Pick(r, []int{200, 202, 204, 299})
-	case x < 95:
+	case x < 96:
 		c.R.Accepted = vf.Pick(r, []int{302, 404, 401, 500})
 	default:
 		c.R.Accepted = vf.Pick(r, []int{50, 1000, -1, 99})
@@ -560,18 +848,8 @@ func c01GenCase(r *vf.Rand) c01Case {
 		c.Lookup = "norule"
 	}
 
-	c.Slash = r.Chance(18)
-
-	// what request-dependent `to` templates of redirect handlers render: nothing, blanks, a URL
-	switch x := r.Intn(100); {
-	case x < 40:
-	case x < 60:
-		v := vf.Pick(r, []string{"", " ", "  \t "})
-		c.LoginURL = &v
-	default:
-		v := vf.Pick(r, []string{"http://idp.example/from-header", "/login?x=1"})
-		c.LoginURL = &v
-	}
+	c.Socket = r.Chance(25)
+	c01GenRequest(r, &c)
 
 	if c.Lookup == "norule" {
 		return c
@@ -580,7 +858,7 @@ func c01GenCase(r *vf.Rand) c01Case {
 	rl := &c01Rule{Backend: !r.Chance(12), SlashesOff: r.Chance(30)}
 
 	n := r.Range(1, 4)
-	if r.Chance(3) {
+	if r.Chance(1) {
 		n = 0
 	}
 
@@ -602,8 +880,139 @@ func c01GenCase(r *vf.Rand) c01Case {
 	}
 
 	c.Rule = rl
+	c01FixMethodConds(&c)
 
 	return c
+}
+
+// c01GenRequest draws the request: method, path, pre-flight headers, what request-dependent `to`
+// templates of redirect handlers render (nothing, blanks, a URL), what the upstream will do.
+func c01GenRequest(r *vf.Rand, c *c01Case) {
+	c.Method = vf.Pick(r, []string{"", "", "", "POST", "HEAD", "OPTIONS", "PUT", "DELETE"})
+	c.Preflight = c.Method == "OPTIONS" && r.Chance(70)
+	c.Slash = r.Chance(15)
+	c.Path = ""
+
+	switch {
+	case c.Lookup == "matched" && r.Chance(20):
+		c.Path = "/x"
+	case c.Lookup != "matched":
+		c.Path = vf.Pick(r, []string{"", "/", "/.well-known/health", "/favicon.ico", "/verif-not", "/metrics", "/.well-known/jwks"})
+	}
+
+	c.LoginURL = nil
+
+	switch x := r.Intn(100); {
+	case x < 40:
+	case x < 60:
+		v := vf.Pick(r, []string{"", " ", "  \t "})
+		c.LoginURL = &v
+	default:
+		v := vf.Pick(r, []string{"http://idp.example/from-header", "/login?x=1"})
+		c.LoginURL = &v
+	}
+
+	c.Upstream = vf.Pick(r, []string{"", "", "", "", "s204", "s404", "s500", "s302", "abort", "abort"})
+}
+
+// the value of a method-reading real condition follows from the request's method
+func c01FixMethodConds(c *c01Case) {
+	if c.Rule == nil {
+		return
+	}
+
+	fix := func(d *c01Cond) {
+		if d.Real && d.RealKind == "method" {
+			d.T = map[bool]string{true: "true", false: "false"}[c.Method == "" || c.Method == "GET"]
+		}
+	}
+
+	for i := range c.Rule.SH {
+		fix(&c.Rule.SH[i].If)
+	}
+
+	for i := range c.Rule.FI {
+		fix(&c.Rule.FI[i].If)
+	}
+
+	for i := range c.Rule.EH {
+		fix(&c.Rule.EH[i].If)
+	}
+}
+
+// c01Vary derives the next request of a group: same configuration, same rule STRUCTURE (number and
+// kind of steps, flags, which conditions are really compiled and what they read, handler kinds), but
+// another request and other outcomes: credentials good then bad, a condition true then false, ...
+func c01Vary(r *vf.Rand, base c01Case, idx int) c01Case {
+	c := base
+	c.Idx = idx
+	c01GenRequest(r, &c)
+
+	if base.Rule == nil {
+		return c
+	}
+
+	g := &c01Gen{r: r, odd: false, calm: r.Chance(45)}
+	g.opts = stacks.GenOpts{ArgBoost: 20, StdPct: 12}
+
+	varyCond := func(d c01Cond) c01Cond {
+		switch {
+		case d.T == "none", d.Real && d.RealKind == "subject":
+			return d
+		case d.Real:
+			d.T = vf.Pick(r, []string{"true", "false"})
+
+			return d
+		}
+
+		for {
+			n := g.cond()
+			if n.T != "none" {
+				n.Real, n.RealKind, n.CID = false, "", 0
+
+				return n
+			}
+		}
+	}
+
+	rl := &c01Rule{Backend: base.Rule.Backend, SlashesOff: base.Rule.SlashesOff}
+
+	for _, a := range base.Rule.SC {
+		rl.SC = append(rl.SC, c01Authn{Out: g.outcome(), Fallback: a.Fallback})
+	}
+
+	for _, st := range base.Rule.SH {
+		rl.SH = append(rl.SH, c01Step{If: varyCond(st.If), Out: g.outcome(), Continue: st.Continue})
+	}
+
+	for _, st := range base.Rule.FI {
+		rl.FI = append(rl.FI, c01Step{If: varyCond(st.If), Out: g.outcome(), Continue: st.Continue})
+	}
+
+	for _, h := range base.Rule.EH {
+		n := h
+		n.If = varyCond(h.If)
+
+		if h.K == "fails" || (h.K == "panics" && h.PanicErr) {
+			n.E = g.tree()
+		}
+
+		rl.EH = append(rl.EH, n)
+	}
+
+	c.Rule = rl
+	c01FixMethodConds(&c)
+
+	return c
+}
+
+func c01GenGroup(r *vf.Rand, size int) []c01Case {
+	g := []c01Case{c01GenCase(r)}
+	for i := 1; i < size; i++ {
+		g = append(g, c01Vary(r.Fork(uint64(1000+i)), g[0], i))
+	}
+
+	return g
 }
 
 func c01Corpus() []c01Case {
@@ -636,7 +1045,7 @@ func c01Corpus() []c01Case {
 			SC: []c01Authn{{Out: c01Outcome{T: "fail", E: arg}}, {Out: c01Outcome{T: "fail", E: &stacks.Node{K: "s", Kind: "comm"}}, Fallback: true},
 				{Out: ok}, {Out: c01Outcome{T: "panic"}}},
 			SH: []c01Step{{If: c01Cond{T: "false"}, Out: c01Outcome{T: "fail", E: authz}},
-				{If: c01Cond{T: "false", Real: true}, Out: c01Outcome{T: "panic"}},
+				{If: c01Cond{T: "false", Real: true, RealKind: "hdr", CID: 8}, Out: c01Outcome{T: "panic"}},
 				{If: none, Out: c01Outcome{T: "fail", E: authz}, Continue: true}},
 			FI:      []c01Step{{If: c01Cond{T: "true"}, Out: ok}},
 			EH:      []c01EH{{If: c01Cond{T: "false"}, K: "default"}, {If: none, K: "redirect", To: "http://idp/login"}},
@@ -644,8 +1053,8 @@ func c01Corpus() []c01Case {
 		// the same with a failing finalizer: redirect 302, nothing reaches the upstream
 		{Lookup: "default", Rule: &c01Rule{
 			SC:      okAuthn,
-			FI:      []c01Step{{If: c01Cond{T: "true", Real: true}, Out: c01Outcome{T: "fail", E: &stacks.Node{K: "s", Kind: "int"}}}},
-			EH:      []c01EH{{If: c01Cond{T: "false", Real: true}, K: "default"}, {If: none, K: "redirect", To: "http://idp/login"}},
+			FI:      []c01Step{{If: c01Cond{T: "true", Real: true, RealKind: "hdr", CID: 7}, Out: c01Outcome{T: "fail", E: &stacks.Node{K: "s", Kind: "int"}}}},
+			EH:      []c01EH{{If: c01Cond{T: "false", Real: true, RealKind: "hdr", CID: 8}, K: "default"}, {If: none, K: "redirect", To: "http://idp/login"}},
 			Backend: true}},
 		// last authenticator fails with an argument error: fallback has nowhere to go
 		{Lookup: "matched", Rule: &c01Rule{SC: []c01Authn{{Out: c01Outcome{T: "fail", E: arg}, Fallback: true}}, Backend: true}},
@@ -654,7 +1063,7 @@ func c01Corpus() []c01Case {
 		{Lookup: "matched", Rule: &c01Rule{SC: okAuthn, SH: []c01Step{{If: c01Cond{T: "err", E: authz}, Out: ok, Continue: true}}, Backend: true}},
 		// error handlers: two not applicable (condition false), then www
 		{Lookup: "matched", Rule: &c01Rule{SC: []c01Authn{{Out: c01Outcome{T: "fail", E: authz}}}, Backend: true,
-			EH: []c01EH{{If: c01Cond{T: "false"}, K: "default"}, {If: c01Cond{T: "false", Real: true}, K: "redirect", To: "/x"}, {If: none, K: "www", Realm: "r"}}}},
+			EH: []c01EH{{If: c01Cond{T: "false"}, K: "default"}, {If: c01Cond{T: "false", Real: true, RealKind: "hdr", CID: 8}, K: "redirect", To: "/x"}, {If: none, K: "www", Realm: "r"}}}},
 		// error handler fails; error handler's condition fails; render failure
 		{Lookup: "matched", Rule: &c01Rule{SC: []c01Authn{{Out: c01Outcome{T: "fail", E: authz}}}, Backend: true,
 			EH: []c01EH{{If: none, K: "fails", E: &stacks.Node{K: "s", Kind: "comm"}}, {If: none, K: "default"}}}},
@@ -831,7 +1240,16 @@ func c01CoqCase(c c01Case, o c01Obs) string {
 		l = "NoRule"
 	}
 
-	return vf.CoqApp("mkcase", cfg, l, vf.CoqApp("rq", vf.CoqBool(c.Slash)),
+	up := "(UpOk 200%Z)"
+
+	switch {
+	case c.Upstream == "abort":
+		up = "UpAbort"
+	case strings.HasPrefix(c.Upstream, "s"):
+		up = "(UpOk " + c.Upstream[1:] + "%Z)"
+	}
+
+	return vf.CoqApp("mkcase", cfg, l, vf.CoqApp("rq", vf.CoqBool(c.Slash), up),
 		c01CoqEntry(o.Decision), c01CoqEntry(o.Proxy), c01CoqEntry(o.Envoy))
 }
 
@@ -889,11 +1307,58 @@ func c01Eventful(d *c01Rule) (failing, skipped, fallback, panics, conds int) {
 	return
 }
 
-func c01Tags(c c01Case, o c01Obs) []string {
-	t := []string{"lookup:" + c.Lookup, "decision:" + c01Class(o.Decision, false), "proxy:" + c01Class(o.Proxy, true),
+func c01Tags(c c01Case, o c01Obs, groupSize int) []string {
+	method := c.Method
+	if method == "" {
+		method = "GET"
+	}
+
+	t := []string{"method:" + method, fmt.Sprintf("requests-per-rule-instance:%d", groupSize), "lookup:" + c.Lookup, "decision:" + c01Class(o.Decision, false), "proxy:" + c01Class(o.Proxy, true),
 		"envoy:" + c01Class(o.Envoy, false)}
 
+	if c.Socket {
+		t = append(t, "transport:socket")
+	} else {
+		t = append(t, "transport:recorder")
+	}
+
+	if c.Upstream != "" {
+		t = append(t, "upstream:"+c.Upstream)
+	}
+
+	if c.Preflight {
+		t = append(t, "preflight-headers")
+	}
+
+	if c.Path != "" {
+		t = append(t, "path:other")
+	}
+
 	if c.Rule != nil {
+		kinds := map[string]bool{}
+
+		for _, a := range c.Rule.SC {
+			if a.Out.E != nil {
+				stacks.Kinds(*a.Out.E, kinds)
+			}
+		}
+
+		for _, st := range append(append([]c01Step{}, c.Rule.SH...), c.Rule.FI...) {
+			if st.Out.E != nil {
+				stacks.Kinds(*st.Out.E, kinds)
+			}
+		}
+
+		if kinds["stdlib"] {
+			t = append(t, "has:stdlib-error-value")
+		}
+
+		c01RealConds(c.Rule, func(d c01Cond) {
+			if d.Real {
+				t = append(t, "real-condition:"+d.RealKind)
+			}
+		})
+
 		f, s, fb, p, cd := c01Eventful(c.Rule)
 		t = append(t, fmt.Sprintf("authenticators:%d", len(c.Rule.SC)), fmt.Sprintf("steps:%d", len(c.Rule.SH)+len(c.Rule.FI)),
 			fmt.Sprintf("error-handlers:%d", len(c.Rule.EH)))
@@ -964,31 +1429,100 @@ func c01Nontrivial(c c01Case) bool {
 	return f+s+p+cd > 0
 }
 
+// corpus groups: several different requests through one rule instance
+func c01CorpusGroups() [][]c01Case {
+	ok := c01Outcome{T: "ok"}
+	authn := &stacks.Node{K: "s", Kind: "authn"}
+	authz := &stacks.Node{K: "s", Kind: "authz"}
+	canceled := &stacks.Node{K: "w", Sub: []stacks.Node{{K: "x", N: 0}}}
+	hdr := func(t string) c01Cond { return c01Cond{T: t, Real: true, RealKind: "hdr", CID: 1} }
+	none := c01Cond{T: "none"}
+
+	return [][]c01Case{
+		// credentials good, then bad, then good again: the second answer must not be the first one's
+		{
+			{Lookup: "matched", Rule: &c01Rule{SC: []c01Authn{{Out: ok}}, Backend: true}},
+			{Lookup: "matched", Idx: 1, Rule: &c01Rule{SC: []c01Authn{{Out: c01Outcome{T: "fail", E: authn}}}, Backend: true}},
+			{Lookup: "matched", Idx: 2, Method: "POST", Rule: &c01Rule{SC: []c01Authn{{Out: ok}}, Backend: true}},
+		},
+		// a really compiled condition reading a request header: false (authorizer skipped), then true (it denies)
+		{
+			{Lookup: "matched", Rule: &c01Rule{SC: []c01Authn{{Out: ok}}, SH: []c01Step{{If: hdr("false"), Out: c01Outcome{T: "fail", E: authz}}}, Backend: true}},
+			{Lookup: "matched", Idx: 1, Rule: &c01Rule{SC: []c01Authn{{Out: ok}}, SH: []c01Step{{If: hdr("true"), Out: c01Outcome{T: "fail", E: authz}}}, Backend: true}},
+		},
+		// the failure is "the client went away" (wraps context.Canceled), handled by the default handler; pre-flight request
+		{
+			{Lookup: "matched", Rule: &c01Rule{SC: []c01Authn{{Out: c01Outcome{T: "fail", E: canceled}}}, Backend: true, EH: []c01EH{{If: none, K: "default"}}}},
+			{Lookup: "matched", Idx: 1, Method: "OPTIONS", Preflight: true,
+				Rule: &c01Rule{SC: []c01Authn{{Out: c01Outcome{T: "fail", E: &stacks.Node{K: "x", N: 1}}}}, Backend: true, EH: []c01EH{{If: none, K: "default"}}}},
+		},
+		// the upstream drops the connection / answers 404: forwarded once, nothing more
+		{
+			{Lookup: "matched", Upstream: "abort", Rule: &c01Rule{SC: []c01Authn{{Out: ok}}, Backend: true}},
+			{Lookup: "matched", Idx: 1, Upstream: "s404", Method: "HEAD", Rule: &c01Rule{SC: []c01Authn{{Out: ok}}, Backend: true}},
+		},
+		// no rule / default rule for paths a shortcut might serve, over a real connection
+		{
+			{Lookup: "norule", Path: "/.well-known/health", Socket: true},
+			{Lookup: "norule", Idx: 1, Path: "/", Method: "OPTIONS", Preflight: true, Socket: true},
+		},
+	}
+}
+
 func TestVerifC01(t *testing.T) {
 	w := vf.NewWriter()
 	defer w.Close()
 
-	up := stacks.NewUpstream()
+	up := stacks.NewModalUpstream()
 	defer up.Close()
 
-	root := vf.NewRand(vf.Seed())
+	root := vf.NewRand(vf.Seed() + uint64(vf.EnvInt("VERIF_C01_SEED_SHIFT", 0))*1000003)
 	n := vf.N(600)
 	idx := 0
 
-	emit := func(stream string, c c01Case) {
-		if vf.Want(idx) {
-			o := c01Run(c, up)
-			w.Put(vf.Obs{I: idx, Stream: stream, In: c, Out: o, Coq: c01CoqCase(c, o), Nontrivial: c01Nontrivial(c), Tags: c01Tags(c, o)})
+	emitGroup := func(stream string, gno int, g []c01Case) {
+		want := false
+
+		for i := range g {
+			g[i].Group, g[i].Socket = gno, g[0].Socket
+			want = want || vf.Want(idx+i)
 		}
 
-		idx++
+		if want {
+			obs := c01RunGroup(g, up)
+
+			for i, c := range g {
+				if vf.Want(idx + i) {
+					w.Put(vf.Obs{I: idx + i, Stream: stream, In: c, Out: obs[i], Coq: c01CoqCase(c, obs[i]),
+						Nontrivial: c01Nontrivial(c), Tags: c01Tags(c, obs[i], len(g))})
+				}
+			}
+		}
+
+		idx += len(g)
 	}
+
+	gno := 0
 
 	for _, c := range c01Corpus() {
-		emit("corpus", c)
+		emitGroup("corpus", gno, []c01Case{c})
+		gno++
 	}
 
-	for i := 0; i < n; i++ {
-		emit("generated", c01GenCase(root.Fork(uint64(i))))
+	for _, g := range c01CorpusGroups() {
+		emitGroup("corpus", gno, g)
+		gno++
+	}
+
+	for made := 0; made < n; gno++ {
+		r := root.Fork(uint64(gno))
+		sizes := []int{1, 2, 2, 3, 3, 3}
+		if os.Getenv("VERIF_C01_CONCURRENT") != "" {
+			sizes = []int{3, 4, 5, 6}
+		}
+
+		g := c01GenGroup(r, vf.Pick(r, sizes))
+		emitGroup("generated", gno, g)
+		made += len(g)
 	}
 }
